@@ -695,6 +695,8 @@ static int _fetch_and_process_packet(OggVorbis_File *vf,
                                      int readp,
                                      int spanp){
   ogg_page og;
+  int hs=0; /* half-rate request carried across a link boundary when
+               streaming */
 
   /* handle one packet.  Try to fetch it from current stream state */
   /* extract packets from page */
@@ -815,6 +817,9 @@ static int _fetch_and_process_packet(OggVorbis_File *vf,
               _decode_clear(vf);
 
               if(!vf->seekable){
+                /* the half-rate request lives in the info that is
+                   about to be discarded */
+                hs=vorbis_synthesis_halfrate_p(vf->vi);
                 vorbis_info_clear(vf->vi);
                 vorbis_comment_clear(vf->vc);
               }
@@ -874,6 +879,12 @@ static int _fetch_and_process_packet(OggVorbis_File *vf,
           vf->current_serialno=vf->os.serialno;
           vf->current_link++;
           link=0;
+
+          /* the new link's info starts out at full rate; hand the
+             request on.  A link with 64 sample blocks can not honour
+             it: report that the way ov_halfrate does, the link then
+             plays at full rate */
+          if(vorbis_synthesis_halfrate(vf->vi,hs))return(OV_EINVAL);
 
           /* _fetch_headers has already submitted every page it read
              to the stream state, the last one (still in og)
